@@ -209,4 +209,62 @@ theorem parseStmts_byte_decimal (cfg : PCfg) (f : Nat) (n : Nat) :
   simp [hpd, parseStmts, ptrim, ptrimL, ptrimR]
   rfl
 
+/-- the text a renderer writes for the simplest statements: a label, an origin with a decimal address,
+    a zone switch, a one-value data line with a decimal value -/
+def renderSimple : Stmt → Option (List Char)
+  | .label name => if name.toList ≠ [] ∧ name.toList.all isNameChar then some (name.toList ++ [':']) else none
+  | .org (.num v) none => if 0 ≤ v then some (".org ".toList ++ Nat.toDigits 10 v.toNat) else none
+  | .memzone z => if z.toList ≠ [] ∧ z.toList.all isWordChar then some (".memzone ".toList ++ z.toList) else none
+  | .data 1 [.num v] => if 0 ≤ v then some (".byte ".toList ++ Nat.toDigits 10 v.toNat) else none
+  | _ => none
+
+theorem parseStmts_nil (cfg : PCfg) (f : Nat) : parseStmts cfg (f + 1) [] = .ok [] := by
+  simp [parseStmts, ptrim, ptrimL, ptrimR]
+
+/-- round trip: whatever `renderSimple` writes, the front end reads back as exactly that statement -/
+theorem parse_renderSimple (cfg : PCfg) (f : Nat) (s : Stmt) (txt : List Char) (h : renderSimple s = some txt) :
+    parseStmts cfg (f + 2) txt = .ok [s] := by
+  unfold renderSimple at h
+  split at h
+  · -- label
+    rename_i name
+    split at h
+    · rename_i hc
+      cases h
+      have hw : NameText name.toList := ⟨hc.1, by simpa [List.all_eq_true] using hc.2⟩
+      rw [parseStmts_label_front cfg (f + 1) name.toList [] hw, parseStmts_nil]
+      simp [bind, Except.bind]
+    · cases h
+  · -- org
+    rename_i v
+    split at h
+    · rename_i hv
+      cases h
+      have := parseStmts_org_decimal cfg f v.toNat
+      rw [this]
+      rw [Int.toNat_of_nonneg hv]
+    · cases h
+  · -- memzone
+    rename_i z
+    split at h
+    · rename_i hc
+      cases h
+      have := parseStmts_memzone_front cfg (f + 1) ".memzone".toList z.toList []
+        ⟨by decide, by decide⟩ (by decide) (by rw [lowerS_eq]; decide)
+        ⟨hc.1, by simpa [List.all_eq_true] using hc.2⟩ (by intro c hc; simp at hc)
+      have e : ".memzone ".toList ++ z.toList = ".memzone".toList ++ ' ' :: z.toList ++ [] := by simp
+      rw [e, this, parseStmts_nil]
+      simp [bind, Except.bind]
+    · cases h
+  · -- data
+    rename_i v
+    split at h
+    · rename_i hv
+      cases h
+      have := parseStmts_byte_decimal cfg f v.toNat
+      rw [this]
+      rw [Int.toNat_of_nonneg hv]
+    · cases h
+  · cases h
+
 end BV
